@@ -131,8 +131,16 @@ class IncrementalCKY:
         """
         c = self._chart.get(prefix)
         if c is None:
-            c = self._compute_chart(prefix)
-            self._chart[prefix] = c
+            # Fill in the missing prefixes shortest-first, starting from the
+            # longest cached prefix, so that a cold cache does not recurse once
+            # per token (RecursionError on contexts of a few hundred tokens).
+            k = len(prefix)
+            while k > 0 and prefix[:k] not in self._chart:
+                k -= 1
+            for n in range(k, len(prefix) + 1):
+                if prefix[:n] not in self._chart:
+                    self._chart[prefix[:n]] = self._compute_chart(prefix[:n])
+            c = self._chart[prefix]
         return c
 
     def _compute_chart(self, prefix):
